@@ -353,14 +353,38 @@ func ruleMOD(c *Ctx) {
 		}
 		return fsFuncs[fn.Pkg().Path()+"."+fn.Name()]
 	}
+	// underAllow: the node runs only when the flag is true - in the then-branch
+	// of `if flag`, in the else-branch of `if !flag`, or after a terminating
+	// `if !flag { return … }`
+	isFlag := func(e ast.Expr) bool { f, _ := FieldSel(p, e); return f == allow }
 	underAllow := func(stack []ast.Node) bool {
 		for i := len(stack) - 1; i > 0; i-- {
-			is, ok := stack[i-1].(*ast.IfStmt)
-			if !ok || stack[i] != ast.Node(is.Body) {
-				continue
-			}
-			if f, _ := FieldSel(p, is.Cond); f == allow {
-				return true
+			switch par := stack[i-1].(type) {
+			case *ast.IfStmt:
+				bare, neg := stripNot(par.Cond)
+				if !isFlag(bare) {
+					continue
+				}
+				if (stack[i] == ast.Node(par.Body) && !neg) || (par.Else != nil && stack[i] == ast.Node(par.Else) && neg) {
+					return true
+				}
+			case *ast.BlockStmt, *ast.CaseClause:
+				var list []ast.Stmt
+				if b, ok := par.(*ast.BlockStmt); ok {
+					list = b.List
+				} else {
+					list = par.(*ast.CaseClause).Body
+				}
+				for _, s := range list {
+					if ast.Node(s) == stack[i] {
+						break
+					}
+					if is, ok := s.(*ast.IfStmt); ok && is.Else == nil && terminates(is.Body) {
+						if bare, neg := stripNot(is.Cond); neg && isFlag(bare) {
+							return true
+						}
+					}
+				}
 			}
 		}
 		return false
@@ -443,7 +467,7 @@ func ruleMOD(c *Ctx) {
 	for _, s := range imp.Body {
 		if is, ok := s.(*ast.IfStmt); ok && is.Init != nil && strings.Contains(w.Src(is.Init), ".modules.Get(") {
 			if el, ok := is.Else.(*ast.IfStmt); ok {
-				if f, _ := FieldSel(p, el.Cond); f == allow {
+				if bare, _ := stripNot(el.Cond); isFlag(bare) {
 					if _, ok := el.Else.(*ast.BlockStmt); ok {
 						first = true
 					}
@@ -757,7 +781,13 @@ func rulePOS1(c *Ctx) {
 		if !ok || fs.Cond == nil {
 			return false
 		}
-		return strings.Contains(w.Src(fs.Cond), "framesIndex > 1") && containsNode(fs.Body, func(m ast.Node) bool {
+		walks := false
+		if b, ok := gtExpr(fs.Cond); ok && b.Op == token.GTR {
+			f, _ := FieldSel(p, b.X)
+			k, isK := ConstInt(p, b.Y)
+			walks = f != nil && f.Name() == "framesIndex" && isK && k == 1
+		}
+		return walks && containsNode(fs.Body, func(m ast.Node) bool {
 			id, ok := m.(*ast.IncDecStmt)
 			return ok && id.Tok == token.DEC && strings.HasSuffix(w.Src(id.X), "framesIndex")
 		}) && containsNode(fs.Body, func(m ast.Node) bool {
@@ -788,7 +818,7 @@ func ruleSEARCH1(c *Ctx) {
 					if call, ok := ast.Unparen(b.X).(*ast.CallExpr); ok && FuncFullName(Callee(p, call)) == "sort.Search" && len(call.Args) == 2 {
 						if fl, ok := call.Args[1].(*ast.FuncLit); ok && len(fl.Body.List) == 1 {
 							if rr, ok := fl.Body.List[0].(*ast.ReturnStmt); ok && len(rr.Results) == 1 {
-								if cb, ok := ast.Unparen(rr.Results[0]).(*ast.BinaryExpr); ok && cb.Op == token.GTR {
+								if cb, ok := gtExpr(rr.Results[0]); ok && cb.Op == token.GTR {
 									l := strings.ReplaceAll(w.Src(cb.X), " ", "")
 									if strings.HasSuffix(l, "].Base") && w.Src(call.Args[0]) == "len("+strings.Split(l, "[")[0]+")" {
 										form1 = true
